@@ -81,6 +81,12 @@ fn fmt_log_out(out: &mut String, log: &[Entry]) {
             Entry::DistRaw { bits } => {
                 let _ = write!(s, " d:{:016x}", bits);
             }
+            Entry::Counter { mi, a_old, a_new, b_old, b_new } => {
+                let _ = write!(s, " c:{}:{}:{}:{}:{}", mi, a_old, a_new, b_old, b_new);
+            }
+            Entry::Limit { mi, value, decrement } => {
+                let _ = write!(s, " l:{}:{}:{}", mi, value, *decrement as u8);
+            }
         }
     }
     let _ = writeln!(out, "{}", s);
@@ -121,6 +127,8 @@ fn fmt_snapshot(out: &mut String, f: &Framework<Vec<Machine>, ScriptRng, VInstan
         let _ = writeln!(out, "o RC {} {} {}", mi, r.counter_a, r.counter_b);
         let _ = writeln!(out, "o RP {} {} {}", mi, r.padding_sent, r.normal_sent);
         let _ = writeln!(out, "o RB {} {}", mi, r.blocking_duration.as_nanos());
+        let z = s.counter_zeroed_once.get(mi).copied().unwrap_or((false, false));
+        let _ = writeln!(out, "o RZ {} {} {}", mi, z.0 as u8, z.1 as u8);
     }
     let _ = writeln!(
         out,
@@ -137,7 +145,7 @@ fn fmt_snapshot(out: &mut String, f: &Framework<Vec<Machine>, ScriptRng, VInstan
         Some(None) => "all".to_string(),
         Some(Some(i)) => format!("x{}", i),
     };
-    let _ = writeln!(out, "o GS {} {} {}", sig, s.counter_zeroed_once.0 as u8, s.counter_zeroed_once.1 as u8);
+    let _ = writeln!(out, "o GS {}", sig);
 }
 
 fn panic_class(p: &Box<dyn std::any::Any + Send>) -> &'static str {
